@@ -1991,15 +1991,22 @@ func (r *Raft) installSnapshot(rpc RPC, req *InstallSnapshotRequest) {
 	}
 	r.logger.Info("copied to local snapshot", "bytes", n)
 
-	// Drop what the snapshot supersedes in a log store that keeps old entries.
-	// If that fails the leader has to try again: the entries must not survive
-	// below the snapshot. (A crash right here is repaired by NewRaft.)
-	if mlogs, ok := r.logs.(MonotonicLogStore); !ok || !mlogs.IsMonotonic() {
-		if err := r.dropUnconfirmedLogs(req.LastLogIndex, req.LastLogTerm); err != nil {
-			r.logger.Error("failed to drop unconfirmed logs", "error", err)
+	// Drop what the snapshot supersedes: everything in a MonotonicLogStore
+	// (it cannot hold the gap), the unconfirmed entries otherwise. If that
+	// fails the leader has to try again: the entries must not survive below
+	// the snapshot. (A crash right here is repaired by NewRaft.)
+	if mlogs, ok := r.logs.(MonotonicLogStore); ok && mlogs.IsMonotonic() {
+		if err := r.removeOldLogs(); err != nil {
+			r.logger.Error("failed to reset logs", "error", err)
 			rpcErr = err
 			return
 		}
+		// The log store is empty now, forget the cached tail
+		r.setLastLog(0, 0)
+	} else if err := r.dropUnconfirmedLogs(req.LastLogIndex, req.LastLogTerm); err != nil {
+		r.logger.Error("failed to drop unconfirmed logs", "error", err)
+		rpcErr = err
+		return
 	}
 
 	// Restore snapshot
@@ -2030,17 +2037,12 @@ func (r *Raft) installSnapshot(rpc RPC, req *InstallSnapshotRequest) {
 	r.setLatestConfiguration(reqConfiguration, reqConfigurationIndex)
 	r.setCommittedConfiguration(reqConfiguration, reqConfigurationIndex)
 
-	// Clear old logs if r.logs is a MonotonicLogStore. Otherwise compact the
-	// logs. In both cases, log any errors and continue.
-	if mlogs, ok := r.logs.(MonotonicLogStore); ok && mlogs.IsMonotonic() {
-		if err := r.removeOldLogs(); err != nil {
-			r.logger.Error("failed to reset logs", "error", err)
-		} else {
-			// The log store is empty now, forget the cached tail
-			r.setLastLog(0, 0)
+	// Compact the logs (a MonotonicLogStore was cleared above). Log any errors
+	// and continue.
+	if mlogs, ok := r.logs.(MonotonicLogStore); !ok || !mlogs.IsMonotonic() {
+		if err := r.compactLogs(req.LastLogIndex); err != nil {
+			r.logger.Error("failed to compact logs", "error", err)
 		}
-	} else if err := r.compactLogs(req.LastLogIndex); err != nil {
-		r.logger.Error("failed to compact logs", "error", err)
 	}
 
 	r.logger.Info("Installed remote snapshot")
